@@ -27,14 +27,15 @@ type OpSpec struct {
 var opKinds = []string{
 	"commit", "commit", "prove", "prove", "verify", "verify", "ipa", "msm", "msm", "precomp",
 	"batchnorm", "tobytes", "decode", "mapfield", "frcodec", "frcodec", "transcript", "uncompressed", "groupops",
+	"readproof", "readproof", "readproof-short", "readpoint-short",
 }
 
 func genOp(r *Rng) OpSpec {
 	k := opKinds[r.Intn(len(opKinds))]
 	o := OpSpec{Kind: k, Seed: r.U64()}
 	switch k {
-	case "prove", "verify":
-		o.Size = 1 + r.Intn(4)
+	case "prove", "verify", "readproof", "readproof-short":
+		o.Size = 1 + r.Intn(3)
 	case "msm":
 		o.Size = r.Pick([]int{1, 2, 3, 8, 20, 64, 130})
 	case "batchnorm", "tobytes", "mapfield":
@@ -166,6 +167,33 @@ func runOp(o OpSpec) string {
 		werr := p.Write(&b)
 		nx := tr.ChallengeScalar([]byte("n"))
 		return digest(b.Bytes(), werr, nx)
+	case "readproof", "readproof-short", "readpoint-short":
+		// deserialisation from a slow, chunked stream: every Read call of the stream is a
+		// scheduling point, so other clients run while this decoder is in the middle of a record
+		label, Cs, fs, zs, _ := honestSmall(o.Seed, o.Size)
+		p, err := multiproof.CreateMultiProof(common.NewTranscript(label), cfg, Cs, fs, zs)
+		if err != nil {
+			return digest("err")
+		}
+		var b bytes.Buffer
+		p.Write(&b)
+		data := b.Bytes()
+		spec := ReaderSpec{Chunk: []string{"1", "random", "random"}[r.Intn(3)], ChunkSeed: r.U64(), EOFWithData: r.Bool(), YieldOnRead: true}
+		switch o.Kind {
+		case "readproof-short":
+			data = data[:r.Intn(576)]
+		case "readpoint-short":
+			pt, err := common.ReadPoint(NewSimReader(data[:r.Intn(32)], spec))
+			return digest(pt == nil, err != nil)
+		}
+		var q multiproof.MultiProof
+		rerr := q.Read(NewSimReader(data, spec))
+		if rerr != nil {
+			return digest("reject")
+		}
+		var b2 bytes.Buffer
+		q.Write(&b2)
+		return digest(b2.Bytes(), q.Equal(*p))
 	case "verify":
 		label, Cs, fs, zs, ys := honestSmall(o.Seed, o.Size)
 		p, err := multiproof.CreateMultiProof(common.NewTranscript(label), cfg, Cs, fs, zs)
